@@ -678,7 +678,9 @@ func runPhase(e *Env, ph *Phase) {
 				seq++
 				k := seq
 				mu.Unlock()
+				release := acquireSlot()
 				rest := runBatch(e, ph, b, fmt.Sprintf("%s.%d", ph.Name, k))
+				release()
 				if rest.from < rest.to {
 					push(rest)
 				}
@@ -686,6 +688,38 @@ func runPhase(e *Env, ph *Phase) {
 		}(w)
 	}
 	wg.Wait()
+}
+
+// acquireSlot takes one of a fixed number of machine-wide slots (flock on
+// files under the scratch base), so that several checks running at the same
+// time do not oversubscribe the CPUs with child processes. It only delays
+// the start of a child; it never affects a verdict.
+func acquireSlot() func() {
+	n := runtime.NumCPU() + runtime.NumCPU()/4
+	if v := os.Getenv("VERIF_SLOTS"); v != "" {
+		if k, err := strconv.Atoi(v); err == nil {
+			n = k
+		}
+	}
+	if n <= 0 {
+		return func() {}
+	}
+	dir := filepath.Join(scratchBase(), "verif-slots")
+	os.MkdirAll(dir, 0o777)
+	start := rand.Intn(n)
+	for {
+		for i := 0; i < n; i++ {
+			f, err := os.OpenFile(filepath.Join(dir, fmt.Sprintf("slot-%d", (start+i)%n)), os.O_CREATE|os.O_RDWR, 0o666)
+			if err != nil {
+				return func() {}
+			}
+			if syscall.Flock(int(f.Fd()), syscall.LOCK_EX|syscall.LOCK_NB) == nil {
+				return func() { syscall.Flock(int(f.Fd()), syscall.LOCK_UN); f.Close() }
+			}
+			f.Close()
+		}
+		time.Sleep(20 * time.Millisecond)
+	}
 }
 
 // runBatch runs one child over [from,to) and returns the range still to do.
